@@ -1185,6 +1185,9 @@ class Engine:
             st.events.append(("insert", (out.r.root, out.r.path), out.i, out.val))
             self.write_at(st, out.r.root, list(out.r.path), Arr(v.items[:out.i] + (out.val,) + v.items[out.i:], v.kind))
             out = UNIT
+        if isinstance(out, _SetPlace):
+            self.write_at(st, out.r.root, list(out.r.path), out.value)
+            out = UNIT
         if isinstance(out, Panic):
             return self.end(st, "panic", info=out.info)
         if ret_bb is None:
@@ -1689,7 +1692,101 @@ def m_ord_minmax(engine, st, fr, callee, args, ops):
     return z3.simplify(z3.If(lt, a, b) if m.group(3) == "min" else z3.If(lt, b, a))
 
 
+def m_range_contains(engine, st, fr, callee, args, ops):
+    """`(a..b).contains(&x)` / `(a..=b).contains(&x)` on primitive integers"""
+    rng = _deref_arg(engine, st, args[0])
+    x = args[1]
+    while isinstance(x, Ref):
+        x = _deref_arg(engine, st, x)
+    if not (isinstance(rng, Adt) and len(rng.fields) >= 2 and z3.is_bv(x)):
+        raise Unsupported("%s on %r" % (callee, rng))
+    lo, hi = rng.fields[0], rng.fields[1]
+    m = re.search(r"Range(Inclusive)?::<(\w+)>::contains", callee)
+    signed = INT_TYPES.get(m.group(2), (0, False))[1] if m else False
+    le = (lambda p, q_: p <= q_) if signed else z3.ULE
+    lt = (lambda p, q_: p < q_) if signed else z3.ULT
+    if m and m.group(1):
+        return z3.simplify(z3.And(le(lo, x), le(x, hi)))
+    return z3.simplify(z3.And(le(lo, x), lt(x, hi)))
+
+
+def m_vec_deref_mut(engine, st, fr, callee, args, ops):
+    return Adt("Slice", None, [args[0]])
+
+
+def m_slice_last_mut(engine, st, fr, callee, args, ops):
+    a = args[0]
+    v = _deref_arg(engine, st, a)
+    if isinstance(v, Adt) and v.ty == "Slice":
+        a = v.fields[0]
+        v = _deref_arg(engine, st, a)
+    if not isinstance(v, Arr):
+        raise Unsupported("%s on %r" % (callee, v))
+    if not v.items:
+        return Adt("Option", "None", [])
+    i = 0 if callee.endswith("first_mut") or callee.endswith("::first") else len(v.items) - 1
+    return Adt("Option", "Some", [Ref(a.root, a.path + (("index_c", i),), True)])
+
+
+def m_result_map_err(engine, st, fr, callee, args, ops):
+    v, clo = args
+    if isinstance(v, Adt) and v.variant == "Ok":
+        return v
+    if isinstance(v, Adt) and v.variant == "Err":
+        if isinstance(clo, Adt) and clo.variant is not None and not clo.fields:
+            return Adt("Result", "Err", [Adt(clo.ty, clo.variant, [v.fields[0]])])
+        if isinstance(clo, FnV) and "{closure" not in clo.name:
+            ty, var, e = engine.enum_variant_value(clo.name)
+            if var is not None:
+                return Adt("Result", "Err", [Adt(ty, var, [v.fields[0]])])
+        return Inline(engine.resolve_fn(clo.name), [clo, v.fields[0]], wrap=lambda rv: Adt("Result", "Err", [rv]))
+    if isinstance(v, Sym):
+        raise Unsupported("map_err on a symbolic Result: enumerate it in the harness")
+    raise Unsupported("map_err on %r" % (v,))
+
+
+def m_vec_dedup(engine, st, fr, callee, args, ops):
+    """`Vec::dedup`: adjacent equal elements collapse (forks on each adjacent equality when it is not decided)."""
+    r = args[0]
+    v = _deref_arg(engine, st, r)
+    if not isinstance(v, Arr):
+        raise Unsupported("dedup of %r" % (v,))
+    items = list(v.items)
+    if len(items) > 6:
+        raise Unsupported("dedup of more than 6 elements")
+    # enumerate which adjacent pairs are equal
+    alts = []
+    n = len(items)
+    import itertools
+    for pattern in itertools.product([False, True], repeat=max(n - 1, 0)):
+        conds = []
+        kept = items[:1]
+        for i, eq in enumerate(pattern):
+            c = struct_eq(engine, st, kept[-1] if False else items[i], items[i + 1])
+            conds.append(c if eq else z3.Not(c))
+            if not eq:
+                kept.append(items[i + 1])
+        cond = z3.simplify(z3.And(*conds)) if conds else True
+        if cond is not True and z3.is_false(cond):
+            continue
+        alts.append((cond, _SetPlace(r, Arr(kept, v.kind))))
+    return alts[0][1] if len(alts) == 1 and alts[0][0] is True else Fork(alts)
+
+
+class _SetPlace:
+    """Deferred write of a place (applied when a Fork alternative is taken); evaluates to ()."""
+
+    def __init__(self, r, value):
+        self.r, self.value = r, value
+
+
 BUILTIN_MODELS = [
+    (r"^(std::ops::|core::ops::)?Range(Inclusive)?::<\w+>::contains::<", m_range_contains),
+    (r"^<Vec<.*> as DerefMut>::deref_mut$", m_vec_deref_mut),
+    (r"^core::slice::<impl \[.*\]>::(last_mut|first_mut)$", m_slice_last_mut),
+    (r"^Vec::<.*>::(last_mut|first_mut)$", m_slice_last_mut),
+    (r"^(std::result::)?Result::<.*>::map_err::<", m_result_map_err),
+    (r"^Vec::<.*>::dedup$", m_vec_dedup),
     (_ORD_RE, m_ord_minmax),
     (_INT_FROM_RE, m_int_from),
     (_ARITH_RE, m_arith_forward),
